@@ -82,15 +82,17 @@ func VerifC15Snapshot(c *Controller) VerifC15Caches {
 	return out
 }
 
-// VerifC15InformersSynced reports whether every informer the queue start waits for except the pod informer has
-// synced, and whether the pod informer has (read-only: the conjuncts of informersSynced).
-func VerifC15InformersSynced(c *Controller) (others bool, pods bool) {
-	others = c.namespaces.HasSynced() &&
-		c.services.HasSynced() &&
-		c.endpoints.slices.HasSynced() &&
-		c.nodes.HasSynced() &&
-		c.imports.HasSynced() &&
-		c.exports.HasSynced() &&
-		c.networkManager.HasSynced()
-	return others, c.pods.pods.HasSynced()
+// VerifC15InformerSync reports, by name, the conjuncts of informersSynced (read-only): what the start of the event
+// queue waits for.
+func VerifC15InformerSync(c *Controller) map[string]bool {
+	return map[string]bool{
+		"namespaces":     c.namespaces.HasSynced(),
+		"services":       c.services.HasSynced(),
+		"endpointslices": c.endpoints.slices.HasSynced(),
+		"pods":           c.pods.pods.HasSynced(),
+		"nodes":          c.nodes.HasSynced(),
+		"imports":        c.imports.HasSynced(),
+		"exports":        c.exports.HasSynced(),
+		"network":        c.networkManager.HasSynced(),
+	}
 }
